@@ -34,6 +34,31 @@ def is_subclass(repo, cls_name, base):
 
 
 def run(chk):
+    """Two deciders.  R6: abstract sessions (communication skeleton: the real Server.run / bidding_phase / playing_phase, seat threads and
+    clients, the real JsonWriter open / _write_content / close on an abstract file) of three boards in which board k is hit by every kind of
+    offending action (call the engine answers ILLEGAL, unparseable call, card the engine refuses, unparseable card) or by the operator's
+    interrupt, at the first / a middle / the last call or card: the table manager must stop, and the file it leaves must be one JSON document
+    with exactly the k-1 finished boards, closed.  R1-R5: the structural typestate rules below, for ALL abort points; a shape they do not
+    recognise is recorded, not an error, as long as R6 decides."""
+    from . import session as SS
+    res = SS.run_family(chk, ['abort'], fam=SS.abort_family(chk.tier))
+    SS.record(chk, res)
+    chk.floor('C13.R6', 'aborted sessions evaluated', len(res), 12)
+    try:
+        structural(chk)
+    except AnalysisError as e:
+        if chk.findings:
+            raise
+        chk.note(f'structural rules not evaluated ({e.rule} at {e.anchor}: {e.why[:200]}); the verdict rests on the aborted abstract sessions (R6) only')
+        chk.explanation = 'The structural typestate rules could not bind this shape of Server.run and were not evaluated.'
+    chk.explanation = ('R6: abstract sessions of three boards on the communication skeleton (the real Server.run, bidding_phase, playing_phase, seat threads, '
+                       'clients and the real JsonWriter open / _write_content / close on an abstract file; engines and texts are stubs) in which board k = 1..3 is '
+                       'hit by an offending action - a call the engine answers ILLEGAL, an unparseable call, a card the engine refuses (not held / out of turn), '
+                       'an unparseable card - or by the operator\'s KeyboardInterrupt, at the first, a middle and the last call / card: the table manager stops, '
+                       'the output file is one parseable JSON document holding exactly the k-1 finished boards, and it is closed.  ' + chk.explanation)
+
+
+def structural(chk):
     repo = chk.repo
     chk.explanation = (
         'Typestate of the JSON log writer in Server.run by a syntax-directed walk: the writer instance must be released on '
@@ -42,7 +67,7 @@ def run(chk):
         'as plain statements with raising statements in between is the recognised-and-wrong shape. The output file is itself '
         'with-managed and entered before the writer. close() writes the closing literal on every path; _write_content calls '
         'json.dumps before its first stream write (no partial record); the per-board write is the last phase of the loop body; '
-        'no except handler in the session code; the ILLEGAL state of take_bid always leads to raise.')
+        'no handler in the session code that swallows the abort.')
     S = Summarizer(repo, 'C13')
     sm = repo.module('network_bridge.server', 'C13')
     w_run, q_run = loc(repo, 'Server', 'run', 'C13.R1')
@@ -212,30 +237,18 @@ def run(chk):
     for cls, meth in session:
         c, fn = repo.method(cls, meth, 'C13.R4')
         n += 1
-        tries = [t for t in ast.walk(fn) if isinstance(t, ast.Try) and t.handlers]
+        # a handler that can swallow the abort: catches everything / Exception / BaseException / KeyboardInterrupt and does not re-raise
+        def swallows(h):
+            names = [ast.unparse(x).split('.')[-1] for x in (h.type.elts if isinstance(h.type, ast.Tuple) else [h.type])] if h.type is not None else ['BaseException']
+            broad = any(x in ('Exception', 'BaseException', 'KeyboardInterrupt') for x in names)
+            reraises = any(isinstance(x, ast.Raise) for st_ in h.body for x in ast.walk(st_))
+            return broad and not reraises
+        tries = [t for t in ast.walk(fn) if isinstance(t, ast.Try) and any(swallows(h) for h in t.handlers)]
         chk.require(not tries, 'C13.R4', repo.where(c.module, tries[0]) if tries else repo.where(c.module, fn), f'{cls}.{meth}',
                     f'except handler in {cls}.{meth}', f'{cls}.{meth} has no except handler (errors abort the session)',
                     f'{cls}.{meth} catches exceptions: an offending action would not abort the session / could be half applied')
     chk.instances('C13.R4', n)
-    n_tb = 0
-    for cls, meth in (('Server', 'bidding_phase'), ('Client', 'bidding_phase')):
-        c, fn = repo.method(cls, meth, 'C13.R4')
-        for call in [x for x in ast.walk(fn) if isinstance(x, ast.Call) and isinstance(x.func, ast.Attribute) and x.func.attr == 'take_bid']:
-            n_tb += 1
-            st = stmt_of(call)
-            var = st.targets[0].id if isinstance(st, ast.Assign) and isinstance(st.targets[0], ast.Name) else None
-            handled = False
-            if var:
-                for node in ast.walk(fn):
-                    if isinstance(node, ast.If):
-                        t = node.test
-                        if isinstance(t, ast.Compare) and len(t.ops) == 1 and isinstance(t.ops[0], (ast.Is, ast.Eq)) and \
-                                ast.unparse(t.left) == var and ast.unparse(t.comparators[0]) == 'BiddingPhaseState.ILLEGAL':
-                            if node.body and isinstance(node.body[-1], ast.Raise):
-                                handled = True
-            chk.require(handled, 'C13.R4', repo.where(c.module, call), f'{cls}.{meth}', ast.unparse(st),
-                        'the ILLEGAL state returned by take_bid leads to raise', 'the result of take_bid is not checked for ILLEGAL followed by raise: an illegal call would be ignored')
-    chk.floor('C13.R4', 'take_bid call sites', n_tb, 2)
+    # (that the ILLEGAL answer of take_bid stops the session is decided on the abstract sessions, R6 - not by the shape of the test)
     # parsers raise on malformed input rather than returning None
     for meth in ('parse_bid', 'parse_card', 'parse_match_base'):
         w, q = loc(repo, 'MessageInterface', meth, 'C13.R4')
